@@ -226,7 +226,11 @@ fn range_value(tokens: &[Token], bp: &BlockParser) -> Option<Result<Value, Sourc
 }
 
 fn not_ws_comment(t: &Token) -> bool {
-    !matches!(t.kind, T![ws] | T![line comment] | T![block comment])
+    // a newline inside the braces is a soft break, same as white space
+    !matches!(
+        t.kind,
+        T![ws] | T![newline] | T![line comment] | T![block comment]
+    )
 }
 
 fn trim_tokens(s: &[Token]) -> &[Token] {
